@@ -17,7 +17,7 @@ import (
 func init() {
 	eng.Register(&eng.Check{
 		ID: "C11",
-		Rule: "E2 + overlay accessor (grammar.VerifParse returns the parser's step counter): inputs = every token sequence of <=2 tokens (thorough <=3) of the C15 alphabet, the C15 derivation set, invalid variants, long inputs (300..4000 bytes) whose syntax error is found early or that are valid, and nested parentheses of depth 0..6 (thorough 0..8 unlimited, 9..11 limited-only) x budgets n: EVERY n in 1..N+2 when N<=600 (N = step count of the unlimited parse), otherwise {1,2,3, N/2, N-2..N+2, 2N, 2^64-1} and all powers of two <= 2^22; oracle: n=0 or n>=N gives exactly the unlimited result (same tree dump / same error text); 0<n<N gives a nil value and the max-expressions error (its text is learned from a budget-1 parse, not hard-coded); a limited parse executes at most n+1 steps; CreateEvaluator(WithMaxExpressions(n)) fails iff grammar.Parse(MaxExpressions(n)) fails; deep nesting is rejected within the budget (steps measured, no wall-clock oracle). Distinct by construction; non-trivial = (input, n) pairs with 0<n<N+3 (around or below the threshold).",
+		Rule: "E2 + overlay accessor (grammar.VerifParse returns the parser's step counter): inputs = every token sequence of <=2 tokens (thorough <=3) of the C15 alphabet, the C15 derivation set, invalid variants, long inputs (300..4000 bytes) whose syntax error is found early or that are valid, and nested parentheses of depth 0..6 (thorough 0..8 unlimited, 9..11 limited-only) x budgets n: EVERY n in 1..N+2 when N<=600 (N = step count of the unlimited parse), otherwise {1,2,3, N/2, N-2..N+2, 2N, 2^64-1} and all powers of two <= 2^22; oracle: n=0 or n>=N gives exactly the unlimited result (same tree dump / same error text); 0<n<N gives a nil value and the max-expressions error (its text is learned from a budget-1 parse, not hard-coded); a limited parse executes at most n+1 steps; CreateEvaluator(WithMaxExpressions(n)) fails iff grammar.Parse(MaxExpressions(n)) fails; deep nesting is rejected within the budget (steps measured, no wall-clock oracle); the option given twice behaves as its last occurrence. Distinct by construction; non-trivial = (input, n) pairs with 0<n<N+3 (around or below the threshold).",
 		Assumptions: []string{"read-only accessor added by the generated overlay (build tag verif); /repo is not modified", "bounded input set and budget sweep as stated"},
 		Run:          runC11,
 		NeedsOverlay: "add",
@@ -209,6 +209,22 @@ func runC11(c *eng.Ctx) {
 					c.Violate(eng.Violation{Kind: "insufficient-budget-not-rejected", Key: key, Coords: co, Expected: fmt.Sprintf("nil value, error containing %q (N=%d)", maxMsg, N), Observed: fmt.Sprintf("nil=%v err=%q", r.isNil, r.errText)})
 				} else {
 					c.Count("0<n<N: max-expressions error")
+				}
+			}
+		}
+		// the budget option given twice: only the last one counts (0 lifts an earlier budget, a small one replaces a large one)
+		if unlimited && N > 2 && N < 5000 {
+			for _, pair := range [][2]uint64{{1, 0}, {N - 1, 0}, {0, N - 1}, {N - 1, N}, {N, N - 1}, {N + 5, 1}, {1, N + 5}, {math.MaxUint64, N - 1}} {
+				_, e2 := createSafe(in, []bexpr.Option{bexpr.WithMaxExpressions(pair[0]), bexpr.WithMaxExpressions(pair[1])})
+				_, e1 := createSafe(in, []bexpr.Option{bexpr.WithMaxExpressions(pair[1])})
+				c.R.Evaluations += 2
+				c.R.States++
+				c.R.Traces++
+				if (e1 == nil) != (e2 == nil) || (e1 != nil && e1.Error() != e2.Error()) {
+					c.Violate(eng.Violation{Kind: "repeated-budget-option", Key: fmt.Sprintf("input=%q budgets=(%d then %d)", in, pair[0], pair[1]), Coords: map[string]int{"i": ii},
+						Expected: fmt.Sprintf("as the single budget %d: err=%v", pair[1], e1), Observed: fmt.Sprintf("err=%v", e2)})
+				} else {
+					c.Count("repeated budget option: last wins")
 				}
 			}
 		}
